@@ -4,6 +4,7 @@ from __future__ import annotations
 
 import ast
 import hashlib
+import os
 from typing import List, Optional
 
 import z3
@@ -65,7 +66,7 @@ class ContractMixin:
     # ------------------------------------------------------------------ modifies
     def parse_modifies(self, st: St, c: Contract, env, nodes=None):
         """-> dict(all=bool, cells=[(r, attr)], fields=[r], contents=[r], none=bool)"""
-        mods = {'all': False, 'cells': [], 'fields': [], 'contents': [], 'declared': False, 'ghost': []}
+        mods = {'all': False, 'cells': [], 'fields': [], 'contents': [], 'declared': False, 'ghost': [], 'guards': {}}
         calls = c.calls('modifies') if nodes is None else None
         arglists = [cl.args for cl in calls] if calls is not None else [nodes]
         if calls is not None and calls:
@@ -80,13 +81,22 @@ class ContractMixin:
                     pass
                 elif isinstance(a, ast.Attribute):
                     base = self.sev(st, a.value, env, c.module)
-                    mods['cells'].append((r_of(self.to_term(st, base)), a.attr))
+                    bt = self.to_term(st, base)
+                    if not z3.is_false(smt.simp(is_ref(bt))):
+                        mods['cells'].append((r_of(bt), a.attr))
+                        mods['guards'][r_of(bt).get_id()] = smt.simp(is_ref(bt))
                 elif isinstance(a, ast.Call) and isinstance(a.func, ast.Name) and a.func.id == 'fields':
                     base = self.sev(st, a.args[0], env, c.module)
-                    mods['fields'].append(r_of(self.to_term(st, base)))
+                    bt = self.to_term(st, base)
+                    if not z3.is_false(smt.simp(is_ref(bt))):
+                        mods['fields'].append(r_of(bt))
+                        mods['guards'][r_of(bt).get_id()] = smt.simp(is_ref(bt))
                 elif isinstance(a, ast.Call) and isinstance(a.func, ast.Name) and a.func.id == 'contents':
                     base = self.sev(st, a.args[0], env, c.module)
-                    mods['contents'].append(r_of(self.to_term(st, base)))
+                    bt = self.to_term(st, base)
+                    if not z3.is_false(smt.simp(is_ref(bt))):
+                        mods['contents'].append(r_of(bt))
+                        mods['guards'][r_of(bt).get_id()] = smt.simp(is_ref(bt))
                 elif isinstance(a, ast.Call) and isinstance(a.func, ast.Name) and a.func.id == 'ghost':
                     mods['ghost'].append(a.args[0].value)
                 else:
@@ -98,17 +108,22 @@ class ContractMixin:
         if mods['all']:
             self.havoc_user(st) if False else self.havoc_all(st)
             return
+        def cond(r, new, old):
+            g = mods['guards'].get(r.get_id(), TRUE)
+            return new if z3.is_true(g) else z3.If(g, new, old)
+
         for (r, attr) in mods['cells']:
-            self.hstore(st, r, attr, smt.fresh('mod', Val))
+            old = self.hload(st, r, attr)
+            self.hstore(st, r, attr, cond(r, smt.fresh('mod', Val), old))
         for r in mods['fields']:
-            st.H = z3.Store(st.H, r, smt.fresh('modf', smt.AttrMap))
+            st.H = z3.Store(st.H, r, cond(r, smt.fresh('modf', smt.AttrMap), z3.Select(st.H, r)))
         for r in mods['contents']:
-            st.DH = z3.Store(st.DH, r, smt.fresh('modh', smt.HasMap))
-            st.DV = z3.Store(st.DV, r, smt.fresh('modv', smt.ValMap))
+            st.DH = z3.Store(st.DH, r, cond(r, smt.fresh('modh', smt.HasMap), z3.Select(st.DH, r)))
+            st.DV = z3.Store(st.DV, r, cond(r, smt.fresh('modv', smt.ValMap), z3.Select(st.DV, r)))
             nl = smt.fresh('modl', smt.Int)
             st.assume(nl >= 0)
-            st.DL = z3.Store(st.DL, r, nl)
-            st.LS = z3.Store(st.LS, r, smt.fresh('mods', smt.SeqV))
+            st.DL = z3.Store(st.DL, r, cond(r, nl, z3.Select(st.DL, r)))
+            st.LS = z3.Store(st.LS, r, cond(r, smt.fresh('mods', smt.SeqV), z3.Select(st.LS, r)))
         for g in mods['ghost']:
             arr = st.ghost[g]
             st.ghost[g] = smt.fresh('g' + g, arr.sort())
@@ -145,6 +160,9 @@ class ContractMixin:
                 outs.append(b)
                 continue
             s2, loc = b
+            for g in c.ghost:
+                if g not in loc or (isinstance(loc[g], tuple) and loc[g][0] == 'default'):
+                    loc[g] = SV(smt.fresh('ghost_' + g, Val))   # ghost arguments are chosen freely by the caller
             for p, val in list(loc.items()):
                 if isinstance(val, tuple) and val[0] == 'default':
                     loc[p] = self.sev(s2, val[1], {'__target_module__': tmod}, c.module)
@@ -156,17 +174,28 @@ class ContractMixin:
                 if g not in loc:
                     loc[g] = SV(smt.fresh('ghost_' + g, Val))
             env = self.contract_env(c, tmod, loc)
+            dbg0 = os.environ.get('PYVC_DEBUG_CONTRACT') == c.target
+            if dbg0:
+                print('DEBUG enter', c.target, 'feasible:', self.feasible(s2))
             self.run_lets(s2, c, env, 'pre')
+            if dbg0:
+                print('   after lets:', self.feasible(s2))
             # preconditions become obligations of the caller
             for i, call in enumerate(c.calls('requires')):
                 label, rest = self._label(call, f'pre{i}')
                 goal = self.spec_bool(s2, self.sev(s2, rest[0], env, c.module))
+                if c.ghost and any(isinstance(n_, ast.Name) and n_.id in c.ghost for n_ in ast.walk(rest[0])):
+                    # ghost parameters are chosen by the caller: constraints on them are assumptions of the instance used
+                    s2.assume(goal)
+                    continue
                 if c.assumed and self.config.get('trust_lib_pre', False):
                     s2.assume(goal)
                     continue
                 if not self.entails(s2, goal):
                     self.add_obligation('pre', s2, goal, f'{c.target}::{label}', node, detail=ast.unparse(rest[0]))
                 s2.assume(goal)
+                if dbg0:
+                    print('   after requires', label, self.feasible(s2))
             pre = s2.heap_snapshot()
             pre_len = len(pre.pc)
             env['__old__'] = pre
@@ -175,9 +204,15 @@ class ContractMixin:
             mods = self.parse_modifies(s2, c, env)
             if normal_possible:
                 s3 = s2.copy()
+                if dbg0:
+                    print('   copy feasible', self.feasible(s3), 'mods', {k_: len(v_) if hasattr(v_, '__len__') else v_ for k_, v_ in mods.items()})
                 self.apply_modifies(s3, mods)
+                if dbg0:
+                    print('   after apply_modifies', self.feasible(s3))
                 res = SV(smt.fresh('res', Val))
                 s3.assume(self.older(s3, res.term))
+                if dbg0:
+                    print('   after res older', self.feasible(s3))
                 e3 = dict(env)
                 e3['ret'] = res
                 if 'result' not in loc:
@@ -198,9 +233,14 @@ class ContractMixin:
                     if 'result' not in loc:
                         e3['result'] = res
                 self.run_lets(s3, c, e3, 'post')
+                dbg = os.environ.get('PYVC_DEBUG_CONTRACT') == c.target
+                if dbg:
+                    print('DEBUG apply', c.target, 'feasible after modifies:', self.feasible(s3))
                 for call in c.calls('ensures'):
                     label, rest = self._label(call, 'post')
                     s3.assume(self.spec_bool(s3, self.sev(s3, rest[0], e3, c.module)))
+                    if dbg:
+                        print('   after ensures', label, self.feasible(s3))
                 for call in c.calls('ghost_update'):
                     self.do_ghost_update(s3, call, e3, c)
                 s3.pc.extend(pre.pc[pre_len:])
@@ -276,7 +316,7 @@ class ContractMixin:
         """Class invariants (CONFIG['class_invariants']) are assumed for every object of the class: they are proved as
         postconditions of the constructors and nobody else writes those fields (A-PRIV)."""
         invs = self.config.get('class_invariants', {})
-        if not invs or not isinstance(v, SV) or v.kind in ('none', 'bool', 'int', 'str'):
+        if not invs or not isinstance(v, SV) or v.kind in ('none', 'bool', 'int', 'str') or v.cls is None:
             return
         for q, fname in invs.items():
             ci = self.cls(q)
@@ -521,11 +561,12 @@ class ContractMixin:
             return
         r = smt.fresh('fr', smt.Int)
         a = smt.fresh('fa', smt.Str)
-        excl = [AND(r == rr, a == S(attr)) for (rr, attr) in mods['cells']] + [r == rr for rr in mods['fields']]
+        g_ = lambda rr: mods['guards'].get(rr.get_id(), TRUE)
+        excl = [AND(g_(rr), r == rr, a == S(attr)) for (rr, attr) in mods['cells']] + [AND(g_(rr), r == rr) for rr in mods['fields']]
         goal = z3.Implies(AND(r < pre.A, NOT(OR(*excl)) if excl else TRUE),
                           z3.Select(z3.Select(st.H, r), a) == z3.Select(z3.Select(pre.H, r), a))
         self.add_obligation('frame', st, goal, 'frame_fields', None, detail='only the declared attribute cells of pre-existing objects change')
-        exc2 = [r == rr for rr in mods['contents']]
+        exc2 = [AND(g_(rr), r == rr) for rr in mods['contents']]
         goal2 = z3.Implies(AND(r < pre.A, NOT(OR(*exc2)) if exc2 else TRUE),
                            AND(z3.Select(st.DH, r) == z3.Select(pre.DH, r), z3.Select(st.DV, r) == z3.Select(pre.DV, r),
                                z3.Select(st.DL, r) == z3.Select(pre.DL, r), z3.Select(st.LS, r) == z3.Select(pre.LS, r)))
